@@ -89,8 +89,12 @@ pub fn ref_tx_weight(tx: &Transaction) -> u128 {
 }
 
 pub fn ref_min_fee(tx: &Transaction, mult: u128) -> u128 {
-    // weight x multiplier / 65536 rounded down; the product saturates at 2^128-1
-    ref_tx_weight(tx).saturating_mul(mult) >> 16
+    // weight x multiplier / 65536 rounded down - exactly, as the statement gives it (the product is formed in unbounded
+    // arithmetic).  A minimum beyond 128 bits cannot be paid by any fee; it is reported as u128::MAX, above every amount a
+    // transaction can name (2^120).  Until session 4 this function copied the code's saturating product, which hid that from
+    // weight x multiplier >= 2^128 on the code's minimum stays at 2^112 - 1 however large the true one is (DESIGN §7-Z).
+    let q: BigUint = (BigUint::from(ref_tx_weight(tx)) * BigUint::from(mult)) >> 16u32;
+    u128::try_from(q).unwrap_or(u128::MAX)
 }
 
 pub fn is_grandfathered(tx: &Transaction) -> bool {
@@ -379,6 +383,14 @@ impl RefState {
         Ok(next)
     }
 
+    /// Why the model refuses a DoscMint, if it does (used to name conservation reports precisely).
+    pub fn dosc_reject_reason(&self, tx: &Transaction, lookup: &dyn Fn(&CoinID) -> Option<CoinDataHeight>, ctx: &BatchCtx) -> Option<&'static str> {
+        if tx.kind != TxKind::DoscMint || tx.inputs.first().and_then(|i| lookup(i)).is_none() {
+            return None;
+        }
+        self.dosc_verdict(tx, lookup, ctx).err().map(|r| r.reason)
+    }
+
     fn dosc_verdict(&self, tx: &Transaction, lookup: &dyn Fn(&CoinID) -> Option<CoinDataHeight>, ctx: &BatchCtx) -> Result<DoscVerdict, Reject> {
         let first = match tx.inputs.first() {
             Some(f) => *f,
@@ -398,14 +410,20 @@ impl RefState {
             Ok(v) => v,
             Err(_) => return rej("doscmint:undecodable-data", ""),
         };
-        let proof = match melpow::Proof::from_bytes(&proof_bytes) {
-            Some(p) => p,
-            None => return rej("doscmint:undecodable-proof", ""),
-        };
-        // verification under either hash; a verifier panic is the implementation's problem, for the model it is "invalid"
-        let legacy = std::panic::catch_unwind(std::panic::AssertUnwindSafe(|| proof.verify(&puzzle, difficulty as usize, LegacyHash))).unwrap_or(false);
-        let tip910 = if legacy { false } else { std::panic::catch_unwind(std::panic::AssertUnwindSafe(|| proof.verify(&puzzle, difficulty as usize, Tip910Hash))).unwrap_or(false) };
+        if proof_bytes.len() % 40 != 0 {
+            return rej("doscmint:undecodable-proof", "");
+        }
+        // validity is judged by the reference verifier (refpow.rs), written from the construction and not from melpow's own
+        // `verify`: the challenged leaves must hash from the labels they name *and* their paths must hash up to the committed root
+        use crate::refpow::{hash_legacy, hash_tip910, ref_pow_verify, PowVerdict};
+        let vl = ref_pow_verify(&proof_bytes, &puzzle.0, difficulty as usize, &hash_legacy);
+        let legacy = vl == PowVerdict::Valid;
+        let vt = if legacy { PowVerdict::Malformed } else { ref_pow_verify(&proof_bytes, &puzzle.0, difficulty as usize, &hash_tip910) };
+        let tip910 = vt == PowVerdict::Valid;
         if !legacy && !tip910 {
+            if vl == PowVerdict::NotBoundToRoot || vt == PowVerdict::NotBoundToRoot {
+                return rej("doscmint:proof-labels-not-bound-to-the-root", "every challenged leaf hashes from the labels given, but the paths do not hash up to the root the proof commits to: no sequential work is shown");
+            }
             return rej("doscmint:invalid-proof", "");
         }
         if age == 0 || difficulty >= 128 {
